@@ -46,8 +46,13 @@ def one_trace(rng, tid, prop):
         integer = rng.random() < 0.35 and mode in ("general", "univariate")
         if mode == "constant":
             size = int(numpy.prod(dshape, dtype=int))
+            vals = [rng.choice(DIV_COEFS) for _ in range(size)]
+            if rng.random() < 0.4:
+                vals[rng.randrange(size)] = 0.0          # a zero entry: quotient 0, the dividend stays as remainder
             divisor = build_poly({"shape": list(dshape), "names": list(names), "rows": [[0] * nnames],
-                                  "coefs": [[rng.choice(DIV_COEFS) for _ in range(size)]], "dtype": "float64"})
+                                  "coefs": [vals], "dtype": "float64"})
+            if rng.random() < 0.3:
+                divisor = numpy.array(vals).reshape(dshape) if rng.random() < 0.6 else (vals[0] if size == 1 else numpy.array(vals).reshape(dshape).tolist())
         else:
             dn = names if mode != "univariate" else names[:1]
             divisor = poly(rng, dshape, dn, "float", max_terms=rng.choice([1, 2, 2, 3]), max_exp=2,
